@@ -47,6 +47,19 @@ class Recorder:
         self.pubs = []           # dicts per publish attempt
         self.client_of_broker = {}
         self.interned = {}
+        self.gate = None         # {"holder": client, "early": [shnums written at once], "lost": [shnums whose request is lost]}
+        self.held = []
+        self.released = False
+
+    def release(self):
+        """the held requests reach their servers now (those marked lost fail instead), in the order they were sent"""
+        self.released = True
+        held, self.held = self.held, []
+        for (d, proxy, args, lost) in held:
+            if lost:
+                d.errback(RuntimeError("request lost"))
+            else:
+                d.callback(proxy._execute(*args))
 
     def vid(self, cs):
         if cs is None:
@@ -70,6 +83,19 @@ class Recorder:
                 return res
 
             def remote_slot_testv_and_readv_and_writev(self, si, secrets, tw, rv):
+                gate = rec.gate
+                if gate is not None and not rec.released:
+                    if c == gate["holder"] and not (set(tw) <= set(gate["early"])):
+                        # this writer's request is on its way: it reaches the server when the gate opens
+                        from twisted.internet import defer
+                        d = defer.Deferred()
+                        rec.held.append((d, self, (si, secrets, tw, rv), bool(set(tw) & set(gate["lost"]))))
+                        return d
+                    if c != gate["holder"]:
+                        rec.release()          # the other writer's first write: the held requests arrive just before it
+                return self._execute(si, secrets, tw, rv)
+
+            def _execute(self, si, secrets, tw, rv):
                 before = {sh: mc.parse_checkstring(v[0]) for sh, v in original.remote_slot_readv(si, [], [(0, 57)]).items()}
                 res = original.remote_slot_testv_and_readv_and_writev(si, secrets, tw, rv)
                 after = {sh: mc.parse_checkstring(v[0]) for sh, v in original.remote_slot_readv(si, [], [(0, 57)]).items()}
@@ -176,7 +202,15 @@ def run_scenario(ctx, sc, acc):
                 tokens = [b"<w%d>" % c for c in range(W)]
                 ds = []
                 outcomes = []
-                if sc.get("staged"):
+                if sc.get("gate"):
+                    # a deterministic overlap: the first writer runs until only its gated requests are in flight; the second
+                    # writer then surveys (catching the first half-way) and publishes; the gate opens at its first write
+                    rec.gate = dict(sc["gate"], holder=0)
+                    mod = lambda c_: nodes[c_].modify(lambda old, sm, first, _t=tokens[c_]: old if _t in old else old + _t)
+                    ds.append(mod(0))
+                    rt.settle()
+                    ds.append(mod(1))
+                elif sc.get("staged"):
                     # a deterministic race: every writer surveys first (its own version object and servermap), then the
                     # writers publish one after the other
                     mvs = [rt.wait(nodes[c].get_best_mutable_version()) for c in range(W)]
@@ -420,6 +454,12 @@ def run(ctx):
         # known finding (known_findings.d/C12.json): a survey that catches the competitor half-way
         scs.insert(2, {"kind": "modify", "W": 2, "k": 3, "n": 9, "servers": 3, "fmt": "s", "sched": 24, "initial": "base",
                        "stagger": 0, "lose": [0, 5, 8]})
+        # the same finding, deterministically: one share per server; writer 0's write of share 0 lands at once, its
+        # request for share 1 is lost and those for shares 2, 3 are in flight while writer 1 surveys; they arrive just
+        # before writer 1's first write
+        for f_ in "sm":
+            scs.insert(3, {"kind": "modify", "W": 2, "k": 2, "n": 4, "servers": 4, "fmt": f_, "sched": 3, "initial": "base",
+                           "stagger": 0, "gate": {"early": [0], "lost": [1]}})
     acc = {"lines": [], "impl": [], "cases": []}
     for sc in scs:
         run_scenario(ctx, sc, acc)
